@@ -389,6 +389,12 @@ def table_and_header(rep, F, tag):
         pfc = one_call(s, 'print_footer')
         spp = [c for c in s.calls if c.callee.name == 'post_process' and (c.callee.trait or '').endswith('Solution')][0]
         R.check(s.dominates(spp.bb, pfc.bb), 'footer-after-post_process' + tag, 'print_footer precedes post_process', s.loc(pfc.sp))
+        R.check(s.dominates(ipp.bb, spp.bb), 'status-final-before-copy' + tag,
+                'solution.post_process copies the status before info.post_process has settled it (Almost* upgrade): the footer and the '
+                'returned solution would disagree', s.loc(spp.sp))
+        # nothing writes the status between the copy into the solution and the footer
+        from .common import region_between
+        from engine.effects import IDX
 
     R.guard(body)
     R2 = rep.rule('C20.R5', 'configuration header: label -> source provenance')
